@@ -548,13 +548,11 @@ func (f *Frame) convert(x *ssa.Convert, st *State) {
 	case tok && tb.Info()&types.IsString != 0:
 		if sl, ok := from.(*types.Slice); ok {
 			// string(bytes)
-			s := un.fresh("str", SStr)
 			hn := un.elemHeap(sl.Elem())
 			h := un.H(st, hn, ArrSort(SInt, ArrSort(SInt, SInt)))
-			i := Term{"i", SInt}
-			un.assume(st, Eq(mk(SInt, "strlen", s), SLen(v)))
-			un.assume(st, Forall([]Term{i}, Implies(And(Le(IntLit(0), i), Lt(i, SLen(v))),
-				Eq(mk(SInt, "strat", s, i), Select(Select(h, SBase(v)), Add(SOff(v), i)))), mk(SInt, "strat", s, i)))
+			un.eng.needStrOf = true
+			s := un.fresh("str", SStr)
+			un.assume(st, Eq(s, mk(SStr, "str_of", Select(h, SBase(v)), SOff(v), SLen(v))))
 			f.vals[x] = Val{T: s, Go: x.Type()}
 		} else {
 			f.vals[x] = Val{T: un.fresh("strconv", SStr), Go: x.Type()}
